@@ -225,6 +225,20 @@ pub fn redex_bodies(k: usize) -> Vec<(String, &'static str)> {
             v.push((format!("PUSH({x}) ~ PUSH({y}) ~ POP_ALL* ~ ANY ~ EOI"), "restore"));
             v.push((format!("PUSH({x}) ~ PUSH({y}) ~ POP? ~ PEEK ~ ANY?"), "restore"));
             v.push((format!("PUSH({x}) ~ PUSH({y}) ~ (POP | {x}) ~ POP? ~ PEEK_ALL?"), "restore"));
+            // the same under the operators a traversal may forget to descend into: + (kept as such
+            // under grammar-extras), PUSH, predicates, and node tags
+            v.push((format!("PUSH({x}) ~ PUSH({y}) ~ (POP_ALL | {y})+ ~ ANY?"), "restore"));
+            v.push((format!("PUSH({x}) ~ PUSH({y}) ~ (POP? ~ {x})+ ~ PEEK_ALL?"), "restore"));
+            v.push((format!("PUSH({x}) ~ PUSH({y}) ~ PUSH(POP_ALL | {y}) ~ PEEK[0..1] ~ ANY?"), "restore"));
+            v.push((format!("PUSH({x}) ~ PUSH({y}) ~ &(POP_ALL | {y}) ~ PEEK_ALL ~ ANY?"), "restore"));
+            #[cfg(feature = "extras")]
+            {
+                v.push((format!("PUSH({x}) ~ PUSH({y}) ~ (#t = (POP_ALL | {y})) ~ ANY?"), "restore"));
+                v.push((format!("PUSH({x}) ~ PUSH({y}) ~ (#t = (POP | {x})) ~ POP? ~ PEEK_ALL?"), "restore"));
+                v.push((format!("PUSH({x}) ~ (#t = ((DROP ~ {y})? ~ PEEK))"), "restore"));
+                v.push((format!("PUSH({x}) ~ PUSH({y}) ~ (#t = ({x} ~ (POP_ALL | {y}))) ~ ANY?"), "restore"));
+                v.push((format!("PUSH({x}) ~ PUSH({y}) ~ (#t = (POP_ALL* ~ {y})) ~ ANY ~ EOI"), "restore"));
+            }
         }
         // unroll
         for (i, rep) in ["{1}", "{2}", "{3}", "{1,}", "{2,}", "{,1}", "{,2}", "{,3}", "{1,1}", "{1,2}", "{1,3}", "{2,3}", "{0,2}", "+"].iter().enumerate() {
@@ -428,6 +442,19 @@ pub fn long_token_cases() -> (Vec<String>, Vec<String>) {
     inputs.sort();
     inputs.dedup();
     (grammars, inputs)
+}
+/// Adjacent literals of every case-sensitivity and letter content (what the concatenator may fold).
+pub fn literal_pair_bodies() -> Vec<String> {
+    let lits = ["\"a\"", "^\"a\"", "\"A\"", "^\"A\"", "\"-\"", "^\"-\"", "\"a-\"", "^\"-a\""];
+    let mut v = vec![];
+    for a in lits {
+        for b in lits {
+            v.push(format!("{a} ~ {b}"));
+            v.push(format!("{a} ~ {b} ~ \"a\""));
+            v.push(format!("({a} ~ {b})* ~ ANY?"));
+        }
+    }
+    v
 }
 pub const BUILTIN_ALPHA: &[char] = &['F', 'g', '0', '8', '\n', '\r', 'é', '\u{7f}', '\u{feff}'];
 
